@@ -215,7 +215,7 @@ theorem reaches_burst_top {a : A} {H0 : List (HEv ℚ)} {S : KS} {t : ℚ} (hnow
       (a.burst F Q size ws P t .top).a (H0 ++ (a.burst F Q size ws P t .top).evs) := by
   have := reaches_passes (p := p) (flow := flow) (size := size) (a := a) (H0 := H0) (t := t) ws hF hfl P ⟨a.dfc, []⟩ S hnow hc
     (by simpa using hH)
-  exact this
+  simpa [A.burst, finish, entryProg] using this
 
 theorem reaches_burst_got {a : A} {H0 : List (HEv ℚ)} {S : KS} {t : ℚ} (hnow : S.now = t) (hc : Cells F Q S.shared a)
     (hH : histOf S.trace = H0) (ws : List (Nat × Nat)) (hF : ∀ e ∈ ws, e.1 < F)
@@ -247,9 +247,14 @@ theorem reaches_burst_got {a : A} {H0 : List (HEv ℚ)} {S : KS} {t : ℚ} (hnow
       (S.trace.push (.log p "park" (.int id) S.now))
       (mid := DRROnK.visitFrom flow size (DRROnK.passes F flow size ws P) (m + 1) rest) ?_ ?_
     · simp [runBurst_call, doCall_load, doCall_store, doCall_log, noteErr, optVal, wc, hh]
-    · refine reaches_thenPasses (a := { a with hol := upd a.hol (flow id) (some id) }) ws hF hfl1 P (by simpa using hnow) _ ?_
-      exact reaches_visitFrom (a := { a with hol := upd a.hol (flow id) (some id) }) (H0 := H0) _ rest (m + 1)
-        ⟨a.dfc, [.park id t]⟩ _ (by simpa using hnow) hc1 (by simp [histOf_push, hH, hnow])
+    · simp only [finish]
+      rw [← List.append_assoc]
+      refine reaches_thenPasses (a := { a with hol := upd a.hol (flow id) (some id) }) (H0 := H0 ++ [.park id t]) ws hF hfl1 P
+        (S := wc S ((cHol (flow id), optVal (some id)) :: S.shared.filter (·.1 != cHol (flow id)))
+          (S.trace.push (.log p "park" (.int id) S.now))) (by simpa using hnow) _ ?_
+      exact reaches_visitFrom (a := { a with hol := upd a.hol (flow id) (some id) }) (H0 := H0 ++ [.park id t]) _ rest (m + 1)
+        ⟨a.dfc, []⟩ (wc S ((cHol (flow id), optVal (some id)) :: S.shared.filter (·.1 != cHol (flow id)))
+          (S.trace.push (.log p "park" (.int id) S.now))) (by simpa using hnow) hc1 (by simp [histOf_push, hH, hnow])
         (fun e he => hF e (hrest e he)) (fun e he => hfl1 e (hrest e he))
 
 /-- the bookkeeping after a transmission -/
@@ -309,15 +314,17 @@ theorem reaches_burst_done {a : A} {H0 : List (HEv ℚ)} {S : KS} {t : ℚ} (hno
   all_goals
     refine Reaches.of_eq (mid := ?mid) ?h ?_
     case h => rfl
-    refine reaches_thenPasses (a := a.book size (flow id) id) ws hF hfl1 P hnow _ ?_
+    simp only [finish]
+    rw [← List.append_assoc]
+    refine reaches_thenPasses (a := a.book size (flow id) id) (H0 := H0 ++ bookEvs a (flow id) id t) ws hF hfl1 P hnow _ ?_
     refine (reaches_book (size := size) hnow hc hH hcF id _).trans ?_
     intro sh tr hc1 hH1
     have h2 := reaches_innerAt (p := p) (flow := flow) (size := size) (a := a.book size (flow id) id)
-      (L := ⟨(a.book size (flow id) id).dfc, bookEvs a (flow id) id t⟩) (H0 := H0) (S := wc S sh tr) (t := t)
+      (L := ⟨(a.book size (flow id) id).dfc, []⟩) (H0 := H0 ++ bookEvs a (flow id) id t) (S := wc S sh tr) (t := t)
       (by simpa using hnow) hc1 (by simpa using hH1) hcF (hfl1 _ hmem)
       (DRROnK.visitFrom flow size (DRROnK.passes F flow size ws P) (m + 1) rest) m
     cases hr : innerAt size (a.book size (flow id) id).ccnt (a.book size (flow id) id).hol t m (flow id)
-        ⟨(a.book size (flow id) id).dfc, bookEvs a (flow id) id t⟩ with
+        ⟨(a.book size (flow id) id).dfc, []⟩ with
     | mk L' oe =>
       rw [hr] at h2
       cases oe with
